@@ -61,7 +61,7 @@ class BoolClient(Client):
         ch = attr_chain(fn)
         if ch and len(ch) == 2 and ch[0] == 'self':
             m = self.cls.find_method(ch[1])
-            if m is not None and m.kind == 'method' and not any(isinstance(n, (ast.Yield, ast.YieldFrom)) for n in ast.walk(m.node)) \
+            if m is not None and m.kind in ('method', 'staticmethod') and not any(isinstance(n, (ast.Yield, ast.YieldFrom)) for n in ast.walk(m.node)) \
                     and self.repo.is_helper(m):
                 return m, list(call.args)
         if isinstance(fn, ast.Name):
@@ -74,7 +74,7 @@ class BoolClient(Client):
 
     def enter(self, m, args, state):
         """-> [(state after the call, return value)]"""
-        params = m.params[1:]
+        params = m.params[1:] if m.kind != 'staticmethod' else m.params
         inner = state
         saved = {}
         for p_, a_ in zip(params, args):
@@ -167,6 +167,22 @@ class BoolClient(Client):
                     return True
         return False
 
+    def item_length_expr(self):
+        """``item_length`` of pdu.PresentationDataValueItem as an expression over ``<item>.data_value``, when it is a property
+        with a single return (the pinned tree: ``len(self.data_value) + 1``); None otherwise"""
+        if not hasattr(self, '_item_length_expr'):
+            out = None
+            try:
+                pc = self.repo.cls('pdu', 'PresentationDataValueItem')
+                f = pc.find_method('item_length')
+                body = body_without_docstring(f.node) if f is not None and f.kind == 'property' else []
+                if len(body) == 1 and isinstance(body[0], ast.Return) and body[0].value is not None:
+                    out = body[0].value
+            except Exception:
+                out = None
+            self._item_length_expr = out
+        return self._item_length_expr
+
     def fold(self, e, state):
         """('ok', value) | ('raise', exception name) | ('unknown', None): the expression folded over what the state knows
         (locals / flags with constant values, the marker, module and class constants) -- nothing else is evaluated"""
@@ -179,6 +195,10 @@ class BoolClient(Client):
             def generic_visit(self_, n):
                 if isinstance(n, ast.expr) and me.is_marker_expr(n):
                     return ast.Name(id='__marker__', ctx=ast.Load())
+                # the size of the PDV value (message control header + fragment), the abstract input ``$dvlen``
+                if isinstance(n, ast.Call) and isinstance(n.func, ast.Name) and n.func.id == 'len' and len(n.args) == 1 \
+                        and isinstance(n.args[0], ast.Attribute) and n.args[0].attr == 'data_value':
+                    return ast.Name(id='__dvlen__', ctx=ast.Load())
                 if isinstance(n, ast.expr) and me.nods_polarity(n) is not None:
                     return ast.Name(id='__no_ds_%s__' % ('eq' if me.nods_polarity(n) else 'ne'), ctx=ast.Load())
                 return super().generic_visit(n)
@@ -186,6 +206,9 @@ class BoolClient(Client):
             def visit_Attribute(self_, n):
                 if me.is_marker_expr(n):
                     return ast.Name(id='__marker__', ctx=ast.Load())
+                if n.attr == 'item_length' and me.item_length_expr() is not None and not (isinstance(n.value, ast.Name) and n.value.id == 'self'):
+                    # the property of the PDV item class, written out over the value's size
+                    return self_.visit(copy.deepcopy(me.item_length_expr()))
                 nm = me.name_of(n)
                 if nm is not None:
                     v = me.get(state, nm)
@@ -212,6 +235,9 @@ class BoolClient(Client):
         mk = self.get(state, '$marker')
         if mk is not U:
             env['__marker__'] = mk
+        dl = self.get(state, '$dvlen')
+        if dl is not U:
+            env['__dvlen__'] = dl
         nd = self.get(state, '$no_ds')
         if nd is not U:
             env['__no_ds_eq__'] = bool(nd)
@@ -594,6 +620,17 @@ def run(repo, rep):
                 p1.append('a data set fragment (header %d) is kept in %s' % (marker, kept or 'nothing'))
             if marker in DATA_FLAGS:
                 data_bufs.update(k_ for k_ in kept if k_ not in (cmd_buf, '_dataset_fp'))
+    # ... whatever the size of the fragment: PS3.8 Annex E sets no minimum, a PDV that carries the control header alone (an empty
+    # last fragment) is well-formed, and so is a fragment of one byte
+    for marker in (0, 1, 2, 3):
+        for dvlen in (1, 2, 3, 4096):
+            pre = frozenset([('self.command_set_received', False), ('self.data_set_received', False), ('self.receiving', True),
+                             ('$marker', marker), ('$dvlen', dvlen)] + ([('$no_ds', False)] if marker != 3 else []))
+            o = Flow(BoolClient(tracked, repo, dec)).run(loop.body, [pre])
+            outs = list(o.fall) + list(o.brk) + list(o.cont) + [s_ for s_, _ in o.ret]
+            if not outs and o.exc and marker != 3:
+                p1.append('a PDV with message control header %d and a fragment of %d byte(s) is refused (%s): PS3.8 Annex E sets no '
+                          'minimum fragment size' % (marker, dvlen - 1, ', '.join(sorted({str(e_) for _s, e_ in o.exc}))[:80]))
     # a header outside 0..3 must raise
     for marker in (4, 5, 7, 8, 16, 128, 255):
         pre = frozenset([('self.command_set_received', False), ('self.data_set_received', False), ('self.receiving', True),
@@ -716,12 +753,13 @@ def run(repo, rep):
                                or cn.startswith('+not ') and cn.endswith('.receiving') for cn in e.conds)
                     failed = any(cn.startswith('exc:') for cn in e.conds)
                     # ... or the association is over: the machine is entering a state in which nothing of it can follow
-                    from ..fsm_model import NO_PENDING_INPUT_STATES, entered_states
+                    from ..fsm_model import REASSEMBLY_STATES, entered_states
                     ent = entered_states(e.conds, repo)
-                    over = ent is not None and ent <= set(NO_PENDING_INPUT_STATES)
+                    over = ent is not None and not (ent & set(REASSEMBLY_STATES))
                     if ent is not None and not over:
                         p7.append('%s discards the decoder at line %d when the machine enters %s: in %s a message may still be '
-                                  'under reassembly' % (fn.qualname, e.line, sorted(ent), sorted(ent - set(NO_PENDING_INPUT_STATES))))
+                                  'under reassembly (PS3.8 Table 9-10, Evt10: DT-2 / AR-6)'
+                                  % (fn.qualname, e.line, sorted(ent), sorted(ent & set(REASSEMBLY_STATES))))
                         continue
                     if not (done or failed or over):
                         p7.append('%s discards the decoder at line %d on a path where the message is neither complete nor '
